@@ -63,6 +63,9 @@ def generate(seed, tier="quick", faults=True, light=False, **kw):
                 r.choice([23, 100, 198, 203]), r.randint(0, 255), r.randint(0, 255), r.randint(1, 254))
             files[-1]["lines"].insert(r.randint(0, len(files[-1]["lines"])),
                                       {"segs": [["lit", "ipv6 route "], ["x6", tok], ["lit", " null0"]], "eol": "\n"})
+    if files and r.random() < 0.06:
+        # a file that starts with a UTF-8 byte order mark (written by Windows tooling): every entry point must treat it alike
+        r.choice(files)["lines"].insert(0, G.lit_line("\ufeff! exported 12 34"))
     for p in hidden:
         files.append({"path": p, "lines": GC.gen_lines(r, ctx, secrets, o, r.randint(1, 3), long_ok=not light), "hidden": True})
     xdisk = {"dirs": list(dirs), "files": {}}
